@@ -31,6 +31,18 @@ def _rm(state, k):
     return frozenset((kk, vv) for kk, vv in state if kk != k)
 
 
+SEP = '\x01'
+
+
+def _v(cur):
+    """value fingerprint of a stored entry (entries written with a tag are 'vfp SEP tagfp')."""
+    return cur.split(SEP, 1)[0]
+
+
+def _t(cur):
+    return cur.split(SEP, 1)[1] if SEP in cur else 'None'
+
+
 OK_TRUE = ('ok', 'True')
 OK_FALSE = ('ok', 'False')
 OK_NONE = ('ok', 'None')
@@ -68,16 +80,21 @@ def apply(state, op, depth=0):
         else:
             if not cur.startswith('i:'):
                 return state, ('exc', 'TypeError')
-            new = int(cur[2:]) + delta
+            new = int(_v(cur)[2:]) + delta
+            if SEP in cur:      # incr keeps the item's tag
+                return _put(state, k, 'i:%d' % new + SEP + _t(cur)), ('ok', 'i:%d' % new)
         return _put(state, k, 'i:%d' % new), ('ok', 'i:%d' % new)
     if name == 'get':
         if cur is None:
-            return state, ('ok', fp_spec(op['default']) if 'default' in op else 'None')
-        return state, ('ok', cur)
+            d = fp_spec(op['default']) if 'default' in op else 'None'
+            return state, ('ok', 't(%s,None)' % d if op.get('tag') else d)
+        if op.get('tag'):
+            return state, ('ok', 't(%s,%s)' % (_v(cur), _t(cur)))
+        return state, ('ok', _v(cur))
     if name in ('getitem', 'read'):
         if cur is None:
             return state, ('exc', 'KeyError')
-        return state, ('ok', cur)
+        return state, ('ok', _v(cur))
     if name == 'contains':
         return state, (OK_TRUE if cur is not None else OK_FALSE)
     if name == 'touch':
@@ -85,13 +102,13 @@ def apply(state, op, depth=0):
     if name == 'pop':
         if cur is None:
             return state, ('ok', fp_spec(op['default']) if 'default' in op else 'None')
-        return _rm(state, k), ('ok', cur)
+        return _rm(state, k), ('ok', _v(cur))
     if name == 'ipop':
         if cur is None:
             if 'default' in op:
                 return state, ('ok', fp_spec(op['default']))
             return state, ('exc', 'KeyError')
-        return _rm(state, k), ('ok', cur)
+        return _rm(state, k), ('ok', _v(cur))
     if name == 'delete':
         if cur is None:
             return state, OK_FALSE
@@ -103,16 +120,21 @@ def apply(state, op, depth=0):
     if name == 'setdefault':
         if cur is None:
             v = _val(op)
-            return _put(state, k, v), ('ok', v)
-        return state, ('ok', cur)
+            return _put(state, k, v), ('ok', _v(v))
+        return state, ('ok', _v(cur))
     raise ValueError('kvmodel: unsupported op %r' % name)
 
 
 def _val(op):
     if op.get('read'):
         v = vals.dec(op['v'])
-        return fp(v if isinstance(v, bytes) else __import__('pickle').dumps(v))
-    return fp_spec(op['v'])
+        base = fp(v if isinstance(v, bytes) else __import__('pickle').dumps(v))
+    else:
+        base = fp_spec(op['v'])
+    tag = op.get('tag')
+    if tag is not None and tag is not True and op.get('op') in ('set', 'add'):
+        return base + SEP + fp(vals.dec(tag))
+    return base
 
 
 def _txn(state, op, depth=0, apply_fn=None):
@@ -138,5 +160,6 @@ def is_miss(rec):
     """Did a completed lookup report a miss?"""
     op, res = rec['op'], rec['res']
     if op['op'] == 'get':
-        return res == ('ok', fp_spec(op['default']) if 'default' in op else 'None')
+        d = fp_spec(op['default']) if 'default' in op else 'None'
+        return res == ('ok', 't(%s,None)' % d if op.get('tag') else d)
     return res == ('exc', 'KeyError')
